@@ -13,6 +13,11 @@ pub fn private_func_leading_underscore(source_unit: SourceUnit) -> HashSet<Loc> 
         ast::extract_target_from_node(Target::FunctionDefinition, source_unit.into());
 
     for node in target_nodes {
+        //Free functions are not members of a contract, the naming convention does not apply to them
+        if !node.is_contract_part() {
+            continue;
+        }
+
         let contract_part = node.contract_part().unwrap();
 
         if let pt::ContractPart::FunctionDefinition(box_fn_definition) = contract_part {
